@@ -232,6 +232,12 @@ where
             };
 
             for peer in peers_waiting {
+                // Peer is going to receive the block, so it doesn't want it anymore.
+                // If it asks for the same CID again, it needs to be served again.
+                if let Some(wantlist) = self.peers_wantlists.get_mut(&peer) {
+                    wantlist.0.remove(&cid);
+                }
+
                 blocks_ready_for_peer
                     .entry(peer)
                     .or_default()
